@@ -104,6 +104,13 @@ class RawPayloadDecoder(AbstractSimplePayloadDecoder):
                              tagSet=None, length=None, state=None,
                              decodeFun=None, substrateFun=None,
                              **options):
+        if substrateFun is self.substrateCollector:
+            # the collector of string fragments takes a known number of
+            # octets: it can not tell where this element ends
+            raise error.PyAsn1Error(
+                'Indefinite-length element %s among the fragments of a '
+                'constructed string' % (tagSet,))
+
         if substrateFun:
             asn1Object = self._createComponent(asn1Spec, tagSet, '', **options)
 
